@@ -288,6 +288,9 @@ type record struct {
 	Summary *summary `json:"summary,omitempty"`
 }
 
+// postCoverage carries the result of a spec's Post step into the evidence.
+var postCoverage map[string]interface{}
+
 // worker runs the test binary on one job and returns its records.
 func worker(sc *scratch, sp *spec, j *job, tag string, timeout time.Duration) ([]record, error) {
 	jf := filepath.Join(sc.dir, "job-"+tag+".json")
@@ -626,6 +629,19 @@ func runCheck(sp *spec, tier string) int {
 		reported = append(reported, min.Fingerprint)
 		exit = 1
 	}
+	var post map[string]interface{}
+	if sp.Post != nil {
+		var pviol []string
+		post, pviol = sp.Post(sc, sp, tier, seed)
+		for i, v := range pviol {
+			path := filepath.Join(verifDir, "replays", fmt.Sprintf("%s-post-%d.json", sp.ID, i))
+			writeJSON(path, map[string]interface{}{"property": sp.ID, "class": "post-check", "msg": v, "seed": seed})
+			fmt.Printf("VIOLATION property=%s replay=%s\n  %s\n", sp.ID, path, v)
+			reported = append(reported, v)
+			exit = 1
+		}
+	}
+	postCoverage = post
 	for _, u := range unreplayed {
 		fmt.Printf("NOT-REPLAYED %s\n", u)
 	}
@@ -795,6 +811,11 @@ func writeEvidence(sp *spec, tier string, seed uint64, t *totals, sc *scratch, s
 	cov["real_components"] = sp.Real
 	cov["stubbed_components"] = sp.Stubbed
 	cov["toolchain"] = "go1.26.8 (testing/synctest); scratch module keeps go 1.18"
+	if postCoverage != nil {
+		for k, v := range postCoverage {
+			cov[k] = v
+		}
+	}
 	cov["known_findings_hit"] = knownHit
 	cov["violations_reported"] = reported
 	if sc != nil && sc.gen != nil {
